@@ -63,6 +63,7 @@ def run(ctx):
             except Exception as e:
                 ctx.violation('C11 givens_decomposition_square raised %s: %s' % (type(e).__name__, e), rp); continue
             add('square', '(square_ok %s %s %s %s %s && layers_ok %d %s)' % (EPS2, EPS, cmat(Q), crots(dec), cvec(D), max(2 * (n - 1) - 1, 0), cpairs(dec)), rp, key=(n, name, repr(np.round(Q, 9).tolist())))
+            if n > N(5, 6): continue      # always_insert applies all n(n-1)/2 rotations: exact reconstruction beyond 6 x 6 exceeds the evaluation budget
             dec2, D2 = givens_decomposition_square(Q, always_insert=True)
             add('square_always_insert', '(square_ok %s %s %s %s %s)' % (EPS2, EPS, cmat(Q), crots(dec2), cvec(D2)), dict(rp, always_insert=True), key=('ai', n, name, repr(np.round(Q, 9).tolist())))
             add('square_schedule', '(let a := %s in let b := pairs_of_square %s in forallb (fun xy => forallb (fun pq => entry_eqb (fst pq) (snd pq)) (combine (fst xy) (snd xy)) && Nat.eqb (length (fst xy)) (length (snd xy))) (combine a (filter (fun l => negb (Nat.eqb (length l) 0)) b)) && Nat.eqb (length a) (length (filter (fun l => negb (Nat.eqb (length l) 0)) b)))' % (cpairs(dec2), cnat(n)),
@@ -79,7 +80,7 @@ def run(ctx):
                 except Exception as e:
                     ctx.violation('C11 givens_decomposition raised %s: %s' % (type(e).__name__, e), rp); continue
                 add('isometry', '(givens_ok %s %s %s %s %s %s && layers_ok %d %s)' % (EPS2, EPS, cmat(Q), cmat(V), crots(dec), cvec(D), n - 1 if m < n else 0, cpairs(dec)), rp, key=(m, n, name, repr(np.round(Q, 9).tolist())))
-                if m < n:
+                if m < n and n <= N(5, 6):
                     dec2, V2, D2 = givens_decomposition(Q, always_insert=True)
                     add('isometry_always_insert', '(givens_ok %s %s %s %s %s %s)' % (EPS2, EPS, cmat(Q), cmat(V2), crots(dec2), cvec(D2)), dict(rp, always_insert=True), key=('ai', m, n, name, repr(np.round(Q, 9).tolist())))
                     add('isometry_schedule', '(let a := %s in let b := filter (fun l => negb (Nat.eqb (length l) 0)) (pairs_of_rect %s %s) in Nat.eqb (length a) (length b) && forallb (fun xy => Nat.eqb (length (fst xy)) (length (snd xy)) && forallb (fun pq => entry_eqb (fst pq) (snd pq)) (combine (fst xy) (snd xy))) (combine a b))' % (cpairs(dec2), cnat(m), cnat(n)),
